@@ -687,6 +687,10 @@ attrsLoop:
 
 						u, err := url.Parse(htmlAttr.Val)
 						if err != nil {
+							// only possible when URLs are not required
+							// to parse: whether the link has a host is
+							// unknown, so it is hardened like one that has
+							externalLink = true
 							continue
 						}
 						if u.Host != "" {
